@@ -1,4 +1,5 @@
 import HyperModel.Model.Indexer
+import HyperModel.Proofs.Indexer
 /-!
 # C31 The indexer serves exactly the recent accepted blocks and transaction results
 
@@ -7,15 +8,17 @@ every run): `c31_counterexample_stale_after_gap`, `c31_counterexample_restart_af
 `c31_counterexample_redelivery`, `c31_counterexample_window_change` prove the negations on the
 model with the same witnesses the harness replays.
 
-`answers_eq_window_spec_partial` is the strongest statement proved: for a fresh indexer with any
-valid window and any run of notifications at consecutive heights (starting anywhere),
-`GetBlockByHeight` answers exactly the window `(last - window, last]` and `GetLatestBlock` the last
-block. Missing for full strength (and false in general, see the counterexamples): histories with
-height gaps / re-delivery / window changes; the by-id and by-transaction queries and
-`restart_invariant` for consecutive histories are checked by the oracle on every run but not proved.
+PARTIAL theorems (the strongest true statements): for a fresh indexer with any valid window, the
+blocks of one chain delivered at consecutive heights from ANY start (including genesis, height 0),
+interleaved with any number of restarts with the same window,
+* `answers_eq_window_spec_partial`: every query (by height, latest, by id, by transaction) answers
+  exactly the window `(last - window, last]`;
+* `restart_invariant_partial`: a restart at any point changes no answer of any of the four queries.
+Missing for full strength (and false in general, see the counterexamples): histories with height
+gaps / re-delivery / window changes.
 -/
 namespace HyperModel.Props.C31
-open HyperModel.Indexer
+open HyperModel.Indexer HyperModel.IndexerProofs
 
 /-- the state `NewIndexer` produces on an empty directory -/
 def fresh (w : Nat) : St :=
@@ -72,107 +75,163 @@ theorem c31_counterexample_window_change :
     getBlockByHeight s 4 = none ∧ getBlockByHeight (step s (.restart 1)) 4 = some (blk 4 0) := by
   decide
 
-/-! ## what does hold: consecutive notifications in one process -/
+/-! ## consecutive heights with restarts: every answer, restart invariance -/
 
-/-- `n` notifications at heights `a, a+1, …` of the chain `c` on a fresh indexer -/
-def chainRun (c : Nat → Block) (w a : Nat) : Nat → St
-  | 0 => fresh w
-  | n + 1 => notify (chainRun c w a n) (c (a + n))
+/-- deliver the next block of the chain / restart with the same window -/
+inductive COp
+  | next
+  | restart
+deriving DecidableEq, Repr
 
-theorem htb_insert (s : St) (b : Block) :
-    (insertBlockIntoCache s b).heightToBlock =
-      setFn (match s.heightToBlock (sub64 b.height s.w) with
-             | some ev => setFn s.heightToBlock ev.height none
-             | none => s.heightToBlock) b.height (some b) := by
-  cases h : s.heightToBlock (sub64 b.height s.w) <;> simp [insertBlockIntoCache, h]
+/-- state and number of blocks delivered so far -/
+def cstep (c : Nat → Block) (w a : Nat) (sn : St × Nat) : COp → St × Nat
+  | .next => (notify sn.1 (c (a + sn.2)), sn.2 + 1)
+  | .restart => ((newIndexer w sn.1.db).getD sn.1, sn.2)
 
-theorem w_insert (s : St) (b : Block) : (insertBlockIntoCache s b).w = s.w := by
-  unfold insertBlockIntoCache
-  split <;> rfl
+def crun (c : Nat → Block) (w a : Nat) (ops : List COp) : St × Nat :=
+  ops.foldl (cstep c w a) (fresh w, 0)
 
-theorem last_insert (s : St) (b : Block) : (insertBlockIntoCache s b).lastHeight = b.height := by
-  unfold insertBlockIntoCache
-  split <;> rfl
-
-theorem chainRun_inv (c : Nat → Block) (hc : ∀ h, (c h).height = h) (w a : Nat) (hw : 0 < w)
-    (hw2 : w < two64) (n : Nat) (hn : a + n < two64) :
-    (chainRun c w a n).w = w ∧
-    (chainRun c w a n).lastHeight = (if n = 0 then maxU64 else a + n - 1) ∧
-    ∀ h, (chainRun c w a n).heightToBlock h =
-      if a ≤ h ∧ h < a + n ∧ a + n ≤ h + w then some (c h) else none := by
-  induction n with
-  | zero =>
-    refine ⟨rfl, rfl, ?_⟩
-    intro h
-    simp only [chainRun, fresh]
-    split
-    · omega
-    · rfl
-  | succ n ih =>
-    obtain ⟨i1, i2, i3⟩ := ih (by omega)
-    simp only [chainRun, notify, storeBlock]
-    refine ⟨by rw [w_insert, i1], by rw [last_insert, hc]; simp, ?_⟩
-    intro h
-    rw [htb_insert, hc, i1, i3]
-    have hsub : sub64 (a + n) w = if w ≤ a + n then a + n - w else a + n + two64 - w := by
-      simp only [sub64, two64] at *
-      split <;> omega
-    by_cases hev : a ≤ sub64 (a + n) w ∧ sub64 (a + n) w < a + n ∧ a + n ≤ sub64 (a + n) w + w
-    · simp only [hev, and_self, if_true, hc, setFn]
-      rw [hsub] at hev ⊢
-      split at hev
-      · rename_i hle
-        simp only [hle, if_true]
-        by_cases e1 : h = a + n
-        · subst e1
-          have : a ≤ a + n ∧ a + n < a + (n + 1) ∧ a + (n + 1) ≤ a + n + w := by omega
-          simp [this]
-        · simp only [e1, if_false]
-          by_cases e2 : h = a + n - w
-          · have : ¬ (a ≤ h ∧ h < a + (n + 1) ∧ a + (n + 1) ≤ h + w) := by omega
-            rw [if_pos e2, if_neg this]
-          · simp only [e2, if_false, i3]
-            by_cases e3 : a ≤ h ∧ h < a + n ∧ a + n ≤ h + w
-            · have : a ≤ h ∧ h < a + (n + 1) ∧ a + (n + 1) ≤ h + w := by omega
-              simp [e3, this]
-            · have : ¬ (a ≤ h ∧ h < a + (n + 1) ∧ a + (n + 1) ≤ h + w) := by omega
-              simp [e3, this]
-      · omega
-    · simp only [hev, if_false, setFn]
-      rw [hsub] at hev
-      by_cases e1 : h = a + n
-      · subst e1
-        have : a ≤ a + n ∧ a + n < a + (n + 1) ∧ a + (n + 1) ≤ a + n + w := by omega
-        simp [this]
-      · simp only [e1, if_false, i3]
-        by_cases e3 : a ≤ h ∧ h < a + n ∧ a + n ≤ h + w
-        · have : a ≤ h ∧ h < a + (n + 1) ∧ a + (n + 1) ≤ h + w := by
-            split at hev <;> omega
-          simp [e3, this]
-        · have : ¬ (a ≤ h ∧ h < a + (n + 1) ∧ a + (n + 1) ≤ h + w) := by omega
-          simp [e3, this]
-
-/-- PARTIAL (consecutive heights, one process, by-height and latest queries only).
-Full statement of the property: after *any* notification sequence and restarts every query (by
-height, by id, by transaction, latest) answers exactly the window — false for the code as it is. -/
-theorem answers_eq_window_spec_partial (c : Nat → Block) (hc : ∀ h, (c h).height = h) (w a n : Nat)
-    (hw : 0 < w) (hw2 : w ≤ maxBlockWindow) (hn : a + n < two64) :
-    (∀ h, getBlockByHeight (chainRun c w a n) h =
-      if a ≤ h ∧ h < a + n ∧ a + n ≤ h + w then some (c h) else none) ∧
-    (0 < n → getLatestBlock (chainRun c w a n) = some (c (a + n - 1))) := by
+theorem canon_foldl {c : Nat → Block} (hc : Chain c) {w a : Nat} (hw : 0 < w) (hw2 : w ≤ maxBlockWindow)
+    (ops : List COp) : ∀ (sn : St × Nat), Canon c w a sn.2 sn.1 → a + sn.2 + ops.length < two64 →
+      Canon c w a (ops.foldl (cstep c w a) sn).2 (ops.foldl (cstep c w a) sn).1 := by
   have hw3 : w < two64 := by simp only [maxBlockWindow, two64] at *; omega
-  obtain ⟨_, i2, i3⟩ := chainRun_inv c hc w a hw hw3 n hn
-  refine ⟨i3, ?_⟩
-  intro hpos
-  have hne : ¬ n = 0 := by omega
-  unfold getLatestBlock getBlockByHeight
-  rw [i2, i3]
-  have h1 : ¬ (a + n - 1 = maxU64) := by simp only [maxU64, two64] at *; omega
-  have h2 : a ≤ a + n - 1 ∧ a + n - 1 < a + n ∧ a + n ≤ a + n - 1 + w := by omega
-  simp [hne, h1, h2]
+  induction ops with
+  | nil => intro sn h _; exact h
+  | cons op r ih =>
+    intro sn h hb
+    simp only [List.length_cons] at hb
+    simp only [List.foldl_cons]
+    apply ih
+    · cases op with
+      | next => exact canon_notify hc hw hw3 (by omega) h
+      | restart =>
+        obtain ⟨s', e, hs'⟩ := canon_restart hc hw hw2 (by omega) h
+        simp only [cstep, e, Option.getD_some]
+        exact hs'
+    · cases op <;> simp only [cstep] <;> omega
 
-/-- non-vacuity: window 2, heights 5, 6, 7 -/
-example : getBlockByHeight (chainRun (fun h => blk h h) 2 5 3) 6 = some (blk 6 6) ∧
-    getBlockByHeight (chainRun (fun h => blk h h) 2 5 3) 5 = none := by decide
+theorem canon_crun {c : Nat → Block} (hc : Chain c) {w a : Nat} (hw : 0 < w) (hw2 : w ≤ maxBlockWindow)
+    (ops : List COp) (hb : a + ops.length < two64) :
+    Canon c w a (crun c w a ops).2 (crun c w a ops).1 :=
+  canon_foldl hc hw hw2 ops (fresh w, 0) (canon_fresh c w a) (by simpa using hb)
+
+/-- the window spec, for every query, read off a canonical state -/
+theorem answers_of_canon {c : Nat → Block} {w a n : Nat} (hw : 0 < w) (hb : a + n < two64) {s : St}
+    (hs : CacheCanon c w a n s) :
+    (∀ h, getBlockByHeight s h = if InWin w a n h then some (c h) else none) ∧
+    (getLatestBlock s = if n = 0 then none else some (c (a + n - 1))) ∧
+    (∀ h, InWin w a n h → getBlock s (c h).id = some (c h)) ∧
+    (∀ id, (∀ h, InWin w a n h → id ≠ (c h).id) → getBlock s id = none) ∧
+    (∀ (h i tx : Nat), InWin w a n h → (c h).txs[i]? = some tx →
+      getTransaction s tx = if (c h).results.length ≤ i then TxAnswer.errNoResult
+                            else TxAnswer.found tx (c h).ts ((c h).results.getD i 0)) ∧
+    (∀ tx : Nat, (∀ h i : Nat, InWin w a n h → (c h).txs[i]? ≠ some tx) → getTransaction s tx = TxAnswer.notFound) := by
+  refine ⟨hs.htb, ?_, ?_, ?_, ?_, ?_⟩
+  · unfold getLatestBlock getBlockByHeight
+    rw [hs.last]
+    by_cases h0 : n = 0
+    · simp [h0]
+    · have h1 : ¬ (a + n - 1 = maxU64) := by simp only [maxU64, two64] at *; omega
+      have h2 : InWin w a n (a + n - 1) := by simp only [InWin]; omega
+      simp only [h0, if_false, h1, hs.htb, if_pos h2]
+  · intro h hwin
+    have := (hs.ith (c h).id h).mpr ⟨hwin, rfl⟩
+    simp only [getBlock, this, getBlockByHeight, hs.htb, if_pos hwin]
+  · intro id hid
+    cases hx : s.idToHeight id with
+    | none => simp [getBlock, hx]
+    | some h' =>
+      have := (hs.ith id h').mp hx
+      exact absurd this.2 (hid h' this.1)
+  · intro h i tx hwin htx
+    have h1 := (hs.txc tx (h, i)).mpr ⟨hwin, htx⟩
+    have hlen : ¬ (c h).txs.length ≤ i := by
+      intro hle
+      rw [List.getElem?_eq_none hle] at htx
+      cases htx
+    have hget : (c h).txs.getD i 0 = tx := by
+      rw [List.getD_eq_getElem?_getD, htx]; rfl
+    simp only [getTransaction, h1, hs.htb, if_pos hwin, hlen, if_false, hget]
+  · intro tx htx
+    cases hx : s.txCache tx with
+    | none => simp [getTransaction, hx]
+    | some p =>
+      have := (hs.txc tx p).mp hx
+      exact absurd this.2 (htx p.1 p.2 this.1)
+
+/-- PARTIAL (consecutive heights from any start, restarts with the same window).
+Full statement of the property: after *any* notification sequence and restarts every query answers
+exactly the window — false for the code as it is (counterexamples above). -/
+theorem answers_eq_window_spec_partial {c : Nat → Block} (hc : Chain c) (w a : Nat) (hw : 0 < w)
+    (hw2 : w ≤ maxBlockWindow) (ops : List COp) (hb : a + ops.length < two64) :
+    let s := (crun c w a ops).1
+    let n := (crun c w a ops).2
+    (∀ h, getBlockByHeight s h = if InWin w a n h then some (c h) else none) ∧
+    (getLatestBlock s = if n = 0 then none else some (c (a + n - 1))) ∧
+    (∀ h, InWin w a n h → getBlock s (c h).id = some (c h)) ∧
+    (∀ id, (∀ h, InWin w a n h → id ≠ (c h).id) → getBlock s id = none) ∧
+    (∀ (h i tx : Nat), InWin w a n h → (c h).txs[i]? = some tx →
+      getTransaction s tx = if (c h).results.length ≤ i then TxAnswer.errNoResult
+                            else TxAnswer.found tx (c h).ts ((c h).results.getD i 0)) ∧
+    (∀ tx : Nat, (∀ h i : Nat, InWin w a n h → (c h).txs[i]? ≠ some tx) → getTransaction s tx = TxAnswer.notFound) := by
+  intro s n
+  have hcan := canon_crun hc hw hw2 ops hb
+  have hn : n ≤ ops.length := by
+    have : ∀ (ops : List COp) (sn : St × Nat), (ops.foldl (cstep c w a) sn).2 ≤ sn.2 + ops.length := by
+      intro ops
+      induction ops with
+      | nil => intro sn; simp
+      | cons op r ih =>
+        intro sn
+        simp only [List.foldl_cons, List.length_cons]
+        have := ih (cstep c w a sn op)
+        cases op <;> simp only [cstep] at this ⊢ <;> omega
+    have := this ops (fresh w, 0)
+    simp only [Nat.zero_add] at this
+    exact this
+  exact answers_of_canon hw (by omega) hcan.cache
+
+/-- PARTIAL (same histories): a restart at any point changes no answer. -/
+theorem restart_invariant_partial {c : Nat → Block} (hc : Chain c) (w a : Nat) (hw : 0 < w)
+    (hw2 : w ≤ maxBlockWindow) (ops : List COp) (hb : a + ops.length < two64) :
+    let s := (crun c w a ops).1
+    let s' := (cstep c w a (crun c w a ops) .restart).1
+    (∀ h, getBlockByHeight s' h = getBlockByHeight s h) ∧ getLatestBlock s' = getLatestBlock s ∧
+    (∀ id, getBlock s' id = getBlock s id) ∧ (∀ tx, getTransaction s' tx = getTransaction s tx) := by
+  intro s s'
+  have hcan := canon_crun hc hw hw2 ops hb
+  have hn : a + (crun c w a ops).2 < two64 := by
+    have : ∀ (ops : List COp) (sn : St × Nat), (ops.foldl (cstep c w a) sn).2 ≤ sn.2 + ops.length := by
+      intro ops
+      induction ops with
+      | nil => intro sn; simp
+      | cons op r ih =>
+        intro sn
+        simp only [List.foldl_cons, List.length_cons]
+        have := ih (cstep c w a sn op)
+        cases op <;> simp only [cstep] at this ⊢ <;> omega
+    have := this ops (fresh w, 0)
+    simp only [crun] at *
+    omega
+  obtain ⟨s'', e, hs''⟩ := canon_restart hc hw hw2 hn hcan
+  have es : s' = s'' := by
+    show (cstep c w a (crun c w a ops) .restart).1 = s''
+    simp only [cstep, e, Option.getD_some]
+  obtain ⟨e1, e2, e3, e4⟩ := canon_caches_eq hs''.cache hcan.cache
+  rw [es]
+  refine ⟨fun h => e1 h, ?_, ?_, ?_⟩
+  · simp only [getLatestBlock, getBlockByHeight, e4, e1]; rfl
+  · intro id; simp only [getBlock, getBlockByHeight, e2, e1]; rfl
+  · intro tx; simp only [getTransaction, e3, e1]; rfl
+
+/-- non-vacuity: a chain with one transaction per block, from genesis, window 2, with restarts -/
+example : getBlockByHeight (crun (fun h => blk h h) 2 0 [.next, .next, .restart, .next, .next, .next, .restart]).1 0 = none ∧
+    getBlockByHeight (crun (fun h => blk h h) 2 0 [.next, .next, .restart, .next, .next, .next, .restart]).1 3 = some (blk 3 3) ∧
+    getTransaction (crun (fun h => blk h h) 2 0 [.next, .next, .restart, .next, .next, .next, .restart]).1 4 = .found 4 40 400 := by
+  decide
+
+example : Chain (fun h => blk h h) :=
+  ⟨fun _ => rfl, fun h h' e => by simpa [blk] using e, fun h => by simp [blk],
+   fun h h' tx e1 e2 => by simp [blk] at e1 e2; omega⟩
 
 end HyperModel.Props.C31
